@@ -195,9 +195,14 @@ class RV:
         for b in branches:
             k = r.ncomp_per_branch[b]
             start = sum(r.ncomp_per_branch[:b])
-            edges_ = [(1 + 1e-10) * i / k for i in range(k + 1)]
-            # np.digitize(at, edges) - 1
-            idx = sum(1 for e in edges_ if at >= e) - 1
+            if not (0.0 <= at <= 1.0):
+                raise Unspec("loc outside [0, 1]")
+            # the compartment containing relative position `at`; at an interior compartment boundary the
+            # denotation is ambiguous (two conventions) and nothing is asserted
+            idx = min(int(math.floor(at * k)), k - 1)
+            frac = at * k
+            if 0 < at < 1 and abs(frac - round(frac)) < 1e-6:
+                raise Unspec("loc at a compartment boundary")
             comps.append(idx + start)
         v = RV(r, self.N, self.E, "global", self.nctrl, self.ectrl, "view").at("comp", comps)
         return RV(r, v.N, v.E, self.scope, v.nctrl, v.ectrl, "loc")
@@ -386,6 +391,10 @@ class RefModule:
                 self.currents.remove(cur)
 
     def add_to_group(self, rv, name):
+        if name not in self.groups and list(rv.N) != sorted(rv.N):
+            # jaxley stores the first view's order and sorts from the second call on: the order of a group
+            # view is not specified by anything, so such groups are not generated and nothing is asserted
+            raise Unspec("group created from an unsorted view (member order unspecified)")
         self.groups[name] = sorted(set(self.groups.get(name, [])) | set(rv.N))
 
     def record(self, rv, state):
